@@ -189,8 +189,18 @@ def _concurrent_case(case):
             ctxs = ((pl['pcid'], sop_for, (pl['ts'][0],)),)
             peer = peers.ScriptedRequestor(world.sim, world.net, ADDR, ctxs, script=script)
             world.spawn(peer.run, 'scu%d' % i, role='user')
-        world.run(tmax=900)
-        world.drain(3.0)
+        # the providers of the associations build and encode their responses at the same time:
+        # line-level pre-emption (with parking) inside the functions every response goes through
+        from .. import preempt
+        pre = preempt.Preempter(world.sim, prob=0.4, park_prob=0.2, park_max=0.1,
+                                funcs={'send', 'encode', 'encode_element', 'set_length',
+                                       'decode', '_fragments'})
+        pre.install()
+        try:
+            world.run(tmax=900)
+            world.drain(3.0)
+        finally:
+            pre.uninstall()
         for i, pl in enumerate(plans):
             if pl.get('noassoc'):
                 continue
